@@ -78,8 +78,9 @@ def run_tlc(module_path, cfg_path=None, *, workers="auto", dump=None, simulate=N
     libs = [os.path.join(SPECS, d) for d in sorted(os.listdir(SPECS))
             if os.path.isdir(os.path.join(SPECS, d))] + ([lib] if lib else [])
     jopts = ["-XX:+UseParallelGC", "-DTLA-Library=" + os.pathsep.join(libs)]
-    if heap:
-        jopts.append("-Xmx" + heap)
+    # explicit heap: the JVM default (a quarter of RAM per process) invites the OOM killer when several TLC runs overlap;
+    # TLC keeps its fingerprint set and state queue on disk, so a moderate heap suffices
+    jopts.append("-Xmx" + (heap or os.environ.get("VERIF_TLC_HEAP", "6g")))
     if dfs:
         jopts.append("-Dtlc2.tool.queue.IStateQueue=StateDeque")
     cmd = ["java"] + jopts + ["-cp", JAR + ":" + DEPS, "tlc2.TLC",
